@@ -58,9 +58,39 @@ fn one_op(w: &mut dyn Write, method: &str, fr: &[Vec<u8>]) -> Result<(), String>
 fn lk(f: &[&str], profile_only: bool) -> String {
     let log: Log = Default::default();
     let probe = Probe(log.clone());
+    // pointer-wrapped raw streams (`&mut S`, `Box<S>`): the blanket impls must forward the lock
+    let mut held = Probe(log.clone());
     let mut auto;
     let mut strip;
+    let mut auto_mut;
+    let mut strip_mut;
+    let mut auto_box;
+    let mut strip_box;
     let w: &mut dyn Write = match f[0] {
+        "never@mut" => {
+            auto_mut = crate::AutoStream::never(&mut held);
+            &mut auto_mut
+        }
+        "always_ansi@mut" => {
+            auto_mut = crate::AutoStream::always_ansi(&mut held);
+            &mut auto_mut
+        }
+        "strip@mut" => {
+            strip_mut = crate::StripStream::new(&mut held);
+            &mut strip_mut
+        }
+        "never@box" => {
+            auto_box = crate::AutoStream::never(Box::new(probe));
+            &mut auto_box
+        }
+        "always_ansi@box" => {
+            auto_box = crate::AutoStream::always_ansi(Box::new(probe));
+            &mut auto_box
+        }
+        "strip@box" => {
+            strip_box = crate::StripStream::new(Box::new(probe));
+            &mut strip_box
+        }
         "never" => {
             auto = crate::AutoStream::never(probe);
             &mut auto
